@@ -199,6 +199,12 @@ func (s *Segment) readListPtr(base address, val rawPointer) (List, error) {
 		}
 		sz := hdr.structSize()
 		n := int32(hdr.offset())
+		if n < 0 {
+			// The tag's element count is an unsigned 30-bit field, but list
+			// lengths are limited to [0, 1<<29): anything that reads as
+			// negative here cannot be a valid list.
+			return List{}, newError("composite list pointer: element count out of range")
+		}
 		// TODO(someday): check that this has the same end address
 		if tsize, ok := sz.totalSize().times(n); !ok {
 			return List{}, newError("composite list pointer: size overflow")
